@@ -31,6 +31,12 @@ theorem NewMPSC_c1_pin (maxCapacity : BitVec 32) :
 theorem NewMPSC_c2_pin (p2initialCapacity : BitVec 32) (p2maxCapacity : BitVec 32) :
     Gen.MpscSites.NewMPSC_c2 p2initialCapacity p2maxCapacity = (BitVec.ult p2maxCapacity p2initialCapacity) := by pin_tac Gen.MpscSites.NewMPSC_c2
 
+theorem NewMPSC_x0_pin (p2initialCapacity : BitVec 32) :
+    Gen.MpscSites.NewMPSC_x0 p2initialCapacity = ((BitVec.setWidth 64 p2initialCapacity) + (1#64)) := by pin_tac Gen.MpscSites.NewMPSC_x0
+
+theorem NewMPSC_x1_pin (p2maxCapacity : BitVec 32) :
+    Gen.MpscSites.NewMPSC_x1 p2maxCapacity = ((BitVec.setWidth 64 p2maxCapacity) <<< 1) := by pin_tac Gen.MpscSites.NewMPSC_x1
+
 theorem NewMPSC_a0_pin (initialCapacity : BitVec 32) :
     Gen.MpscSites.NewMPSC_a0 initialCapacity = (OtterVerif.Gen.Xmath.RoundUpPowerOf2 initialCapacity) := by pin_tac Gen.MpscSites.NewMPSC_a0
 
@@ -79,6 +85,9 @@ theorem MPSC_TryPush_c1_pin (pIndex : BitVec 64) (producerLimit : BitVec 64) :
 theorem MPSC_TryPush_c2_pin (m_producerIndex_CompareAndSwap_pIndex_pIndex_2 : Bool) :
     Gen.MpscSites.MPSC_TryPush_c2 m_producerIndex_CompareAndSwap_pIndex_pIndex_2 = m_producerIndex_CompareAndSwap_pIndex_pIndex_2 := by pin_tac Gen.MpscSites.MPSC_TryPush_c2
 
+theorem MPSC_TryPush_x0_pin (pIndex : BitVec 64) :
+    Gen.MpscSites.MPSC_TryPush_x0 pIndex = (pIndex + (2#64)) := by pin_tac Gen.MpscSites.MPSC_TryPush_x0
+
 theorem MPSC_TryPush_a0_pin (m_producerLimit_Load : BitVec 64) :
     Gen.MpscSites.MPSC_TryPush_a0 m_producerLimit_Load = m_producerLimit_Load := by pin_tac Gen.MpscSites.MPSC_TryPush_a0
 
@@ -115,6 +124,12 @@ theorem MPSC_pushSlowPath_c2_pin (m_producerIndex_CompareAndSwap_pIndex_pIndex_1
 theorem MPSC_pushSlowPath_c3_pin (m_producerLimit_CompareAndSwap_producerLimit_cIndex_bufferCapacity : Bool) :
     Gen.MpscSites.MPSC_pushSlowPath_c3 m_producerLimit_CompareAndSwap_producerLimit_cIndex_bufferCapacity = (!m_producerLimit_CompareAndSwap_producerLimit_cIndex_bufferCapacity) := by pin_tac Gen.MpscSites.MPSC_pushSlowPath_c3
 
+theorem MPSC_pushSlowPath_x0_pin (bufferCapacity : BitVec 64) (cIndex : BitVec 64) :
+    Gen.MpscSites.MPSC_pushSlowPath_x0 bufferCapacity cIndex = (cIndex + bufferCapacity) := by pin_tac Gen.MpscSites.MPSC_pushSlowPath_x0
+
+theorem MPSC_pushSlowPath_x1_pin (pIndex : BitVec 64) :
+    Gen.MpscSites.MPSC_pushSlowPath_x1 pIndex = (pIndex + (1#64)) := by pin_tac Gen.MpscSites.MPSC_pushSlowPath_x1
+
 theorem MPSC_pushSlowPath_a0_pin (m_consumerIndex_Load : BitVec 64) :
     Gen.MpscSites.MPSC_pushSlowPath_a0 m_consumerIndex_Load = m_consumerIndex_Load := by pin_tac Gen.MpscSites.MPSC_pushSlowPath_a0
 
@@ -138,6 +153,9 @@ theorem MPSC_pushSlowPath_r0_pin (result : BitVec 8) :
 
 theorem MPSC_TryPop_c1_pin (index : BitVec 64) (m_producerIndex_Load : BitVec 64) :
     Gen.MpscSites.MPSC_TryPop_c1 index m_producerIndex_Load = (index == m_producerIndex_Load) := by pin_tac Gen.MpscSites.MPSC_TryPop_c1
+
+theorem MPSC_TryPop_x0_pin (index : BitVec 64) :
+    Gen.MpscSites.MPSC_TryPop_x0 index = (index + (2#64)) := by pin_tac Gen.MpscSites.MPSC_TryPop_x0
 
 theorem MPSC_TryPop_a1_pin (m_consumerIndex_Load : BitVec 64) :
     Gen.MpscSites.MPSC_TryPop_a1 m_consumerIndex_Load = m_consumerIndex_Load := by pin_tac Gen.MpscSites.MPSC_TryPop_a1
@@ -181,6 +199,9 @@ theorem MPSC_getNextBuffer_c0_pin (nextBuffer__nil : Bool) :
 theorem MPSC_getNextBuffer_a0_pin (mask : BitVec 64) :
     Gen.MpscSites.MPSC_getNextBuffer_a0 mask = (h_nextArrayOffset mask) := by pin_tac Gen.MpscSites.MPSC_getNextBuffer_a0
 
+theorem MPSC_newBufferTryPush_x0_pin (index : BitVec 64) :
+    Gen.MpscSites.MPSC_newBufferTryPush_x0 index = (index + (2#64)) := by pin_tac Gen.MpscSites.MPSC_newBufferTryPush_x0
+
 theorem MPSC_newBufferTryPush_a0_pin (m_newBufferAndOffset_b_index : BitVec 64) :
     Gen.MpscSites.MPSC_newBufferTryPush_a0 m_newBufferAndOffset_b_index = m_newBufferAndOffset_b_index := by pin_tac Gen.MpscSites.MPSC_newBufferTryPush_a0
 
@@ -192,6 +213,12 @@ theorem MPSC_newBufferAndOffset_r0_pin (index : BitVec 64) (mask : BitVec 64) :
 
 theorem MPSC_resize_c0_pin (availableInQueue : BitVec 64) :
     Gen.MpscSites.MPSC_resize_c0 availableInQueue = (availableInQueue == (0#64)) := by pin_tac Gen.MpscSites.MPSC_resize_c0
+
+theorem MPSC_resize_x0_pin (availableInQueue : BitVec 64) (newMask : BitVec 64) (pIndex : BitVec 64) :
+    Gen.MpscSites.MPSC_resize_x0 availableInQueue newMask pIndex = (pIndex + (OtterVerif.Bv.umin newMask availableInQueue)) := by pin_tac Gen.MpscSites.MPSC_resize_x0
+
+theorem MPSC_resize_x1_pin (pIndex : BitVec 64) :
+    Gen.MpscSites.MPSC_resize_x1 pIndex = (pIndex + (2#64)) := by pin_tac Gen.MpscSites.MPSC_resize_x1
 
 theorem MPSC_resize_a0_pin (m_getNextBufferSize_oldBuffer : BitVec 64) :
     Gen.MpscSites.MPSC_resize_a0 m_getNextBufferSize_oldBuffer = m_getNextBufferSize_oldBuffer := by pin_tac Gen.MpscSites.MPSC_resize_a0
@@ -211,6 +238,9 @@ theorem MPSC_resize_a5_pin (m_consumerIndex_Load : BitVec 64) :
 theorem MPSC_resize_a6_pin (m_availableInQueue_pIndex_cIndex : BitVec 64) :
     Gen.MpscSites.MPSC_resize_a6 m_availableInQueue_pIndex_cIndex = m_availableInQueue_pIndex_cIndex := by pin_tac Gen.MpscSites.MPSC_resize_a6
 
+theorem nextArrayOffset_x0_pin (mask : BitVec 64) :
+    Gen.MpscSites.nextArrayOffset_x0 mask = (mask + (2#64)) := by pin_tac Gen.MpscSites.nextArrayOffset_x0
+
 theorem nextArrayOffset_r0_pin (mask : BitVec 64) :
     Gen.MpscSites.nextArrayOffset_r0 mask = (h_modifiedCalcElementOffset (mask + (2#64)) (18446744073709551615#64)) := by pin_tac Gen.MpscSites.nextArrayOffset_r0
 
@@ -220,6 +250,8 @@ theorem modifiedCalcElementOffset_r0_pin (index : BitVec 64) (mask : BitVec 64) 
 theorem siteParams_pin : Gen.MpscSites.siteParams = [("NewMPSC_c0", ["initialCapacity"]),
   ("NewMPSC_c1", ["maxCapacity"]),
   ("NewMPSC_c2", ["p2initialCapacity", "p2maxCapacity"]),
+  ("NewMPSC_x0", ["p2initialCapacity"]),
+  ("NewMPSC_x1", ["p2maxCapacity"]),
   ("NewMPSC_a0", ["initialCapacity"]),
   ("NewMPSC_a1", ["maxCapacity"]),
   ("NewMPSC_a3", ["p2initialCapacity"]),
@@ -236,6 +268,7 @@ theorem siteParams_pin : Gen.MpscSites.siteParams = [("NewMPSC_c0", ["initialCap
   ("MPSC_TryPush_c0", ["pIndex"]),
   ("MPSC_TryPush_c1", ["pIndex", "producerLimit"]),
   ("MPSC_TryPush_c2", ["m_producerIndex_CompareAndSwap_pIndex_pIndex_2"]),
+  ("MPSC_TryPush_x0", ["pIndex"]),
   ("MPSC_TryPush_a0", ["m_producerLimit_Load"]),
   ("MPSC_TryPush_a1", ["m_producerIndex_Load"]),
   ("MPSC_TryPush_a2", ["m_producerMask_Load"]),
@@ -248,6 +281,8 @@ theorem siteParams_pin : Gen.MpscSites.siteParams = [("NewMPSC_c0", ["initialCap
   ("MPSC_pushSlowPath_c1", ["m_availableInQueue_pIndex_cIndex"]),
   ("MPSC_pushSlowPath_c2", ["m_producerIndex_CompareAndSwap_pIndex_pIndex_1"]),
   ("MPSC_pushSlowPath_c3", ["m_producerLimit_CompareAndSwap_producerLimit_cIndex_bufferCapacity"]),
+  ("MPSC_pushSlowPath_x0", ["bufferCapacity", "cIndex"]),
+  ("MPSC_pushSlowPath_x1", ["pIndex"]),
   ("MPSC_pushSlowPath_a0", ["m_consumerIndex_Load"]),
   ("MPSC_pushSlowPath_a1", ["m_getCurrentBufferCapacity_mask"]),
   ("MPSC_pushSlowPath_a2", []),
@@ -256,6 +291,7 @@ theorem siteParams_pin : Gen.MpscSites.siteParams = [("NewMPSC_c0", ["initialCap
   ("MPSC_pushSlowPath_a5", []),
   ("MPSC_pushSlowPath_r0", ["result"]),
   ("MPSC_TryPop_c1", ["index", "m_producerIndex_Load"]),
+  ("MPSC_TryPop_x0", ["index"]),
   ("MPSC_TryPop_a1", ["m_consumerIndex_Load"]),
   ("MPSC_TryPop_a2", ["m_consumerMask_Load"]),
   ("MPSC_TryPop_a3", ["index", "mask"]),
@@ -270,35 +306,39 @@ theorem siteParams_pin : Gen.MpscSites.siteParams = [("NewMPSC_c0", ["initialCap
   ("MPSC_IsEmpty_r0", ["m_consumerIndex_Load", "m_producerIndex_Load"]),
   ("MPSC_getNextBuffer_c0", ["nextBuffer__nil"]),
   ("MPSC_getNextBuffer_a0", ["mask"]),
+  ("MPSC_newBufferTryPush_x0", ["index"]),
   ("MPSC_newBufferTryPush_a0", ["m_newBufferAndOffset_b_index"]),
   ("MPSC_newBufferAndOffset_a0", ["len_b_data"]),
   ("MPSC_newBufferAndOffset_r0", ["index", "mask"]),
   ("MPSC_resize_c0", ["availableInQueue"]),
+  ("MPSC_resize_x0", ["availableInQueue", "newMask", "pIndex"]),
+  ("MPSC_resize_x1", ["pIndex"]),
   ("MPSC_resize_a0", ["m_getNextBufferSize_oldBuffer"]),
   ("MPSC_resize_a2", ["newBufferLength"]),
   ("MPSC_resize_a3", ["oldMask", "pIndex"]),
   ("MPSC_resize_a4", ["newMask", "pIndex"]),
   ("MPSC_resize_a5", ["m_consumerIndex_Load"]),
   ("MPSC_resize_a6", ["m_availableInQueue_pIndex_cIndex"]),
+  ("nextArrayOffset_x0", ["mask"]),
   ("nextArrayOffset_r0", ["mask"]),
   ("modifiedCalcElementOffset_r0", ["index", "mask"])] := by rfl
 
-theorem shape_pin : Gen.MpscSites.shape = [("newBuffer", [0, 0, 0, 1, 0]),
-  ("NewMPSC", [3, 0, 6, 1, 0]),
-  ("MPSC_getNextBufferSize", [1, 0, 3, 1, 0]),
-  ("MPSC_getCurrentBufferCapacity", [1, 0, 0, 2, 0]),
-  ("MPSC_availableInQueue", [0, 0, 0, 1, 0]),
-  ("MPSC_capacity", [0, 0, 0, 1, 0]),
-  ("MPSC_TryPush", [3, 0, 6, 3, 0]),
-  ("MPSC_pushSlowPath", [4, 0, 6, 1, 0]),
-  ("MPSC_TryPop", [4, 0, 8, 3, 0]),
-  ("MPSC_Size", [2, 0, 4, 2, 0]),
-  ("MPSC_IsEmpty", [0, 0, 0, 1, 0]),
-  ("MPSC_getNextBuffer", [1, 0, 2, 1, 0]),
-  ("MPSC_newBufferTryPush", [1, 0, 2, 1, 0]),
-  ("MPSC_newBufferAndOffset", [0, 0, 1, 1, 0]),
-  ("MPSC_resize", [1, 0, 7, 0, 0]),
-  ("nextArrayOffset", [0, 0, 0, 1, 0]),
-  ("modifiedCalcElementOffset", [0, 0, 0, 1, 0])] := by rfl
+theorem shape_pin : Gen.MpscSites.shape = [("newBuffer", [0, 0, 0, 1, 0, 0]),
+  ("NewMPSC", [3, 0, 6, 1, 0, 2]),
+  ("MPSC_getNextBufferSize", [1, 0, 3, 1, 0, 0]),
+  ("MPSC_getCurrentBufferCapacity", [1, 0, 0, 2, 0, 0]),
+  ("MPSC_availableInQueue", [0, 0, 0, 1, 0, 0]),
+  ("MPSC_capacity", [0, 0, 0, 1, 0, 0]),
+  ("MPSC_TryPush", [3, 0, 6, 3, 0, 1]),
+  ("MPSC_pushSlowPath", [4, 0, 6, 1, 0, 2]),
+  ("MPSC_TryPop", [4, 0, 8, 3, 0, 1]),
+  ("MPSC_Size", [2, 0, 4, 2, 0, 0]),
+  ("MPSC_IsEmpty", [0, 0, 0, 1, 0, 0]),
+  ("MPSC_getNextBuffer", [1, 0, 2, 1, 0, 0]),
+  ("MPSC_newBufferTryPush", [1, 0, 2, 1, 0, 1]),
+  ("MPSC_newBufferAndOffset", [0, 0, 1, 1, 0, 0]),
+  ("MPSC_resize", [1, 0, 7, 0, 0, 2]),
+  ("nextArrayOffset", [0, 0, 0, 1, 0, 1]),
+  ("modifiedCalcElementOffset", [0, 0, 0, 1, 0, 0])] := by rfl
 
 end OtterVerif.Pin.MpscSites
